@@ -554,8 +554,8 @@ impl TypedScenario for C06E2E {
     }
     fn budget(&self, tier: Tier) -> usize {
         match (tier, self.faulty) {
-            (Tier::Quick, false) => 4000,
-            (Tier::Quick, true) => 2000,
+            (Tier::Quick, false) => 10_000,
+            (Tier::Quick, true) => 4000,
             (Tier::Thorough, false) => 2_000_000,
             (Tier::Thorough, true) => 750_000,
         }
